@@ -192,15 +192,18 @@ def present(fmt, path, spec, via, mode='r'):
         return {'vars': out, 'tflag': np.stack([t0, t1], axis=1)[:, None, :]}
     keys = list(f.variables.keys())
     tflag = None
+    etflag = None
     for k in keys:
         v = f.variables[k]
         a = np.array(v[...])
         if k in ('TFLAG', 'ETFLAG'):
             if k == 'TFLAG':
                 tflag = a
+            else:
+                etflag = a
             continue
         out[k] = a[None] if fmt == 'landuse' else a     # the whole file is one "step"
-    return {'vars': out, 'tflag': tflag}
+    return {'vars': out, 'tflag': tflag, 'etflag': etflag}
 
 
 def judge(fmt, pres, truth, full, N, step_ends, boundaries=None):
@@ -288,6 +291,17 @@ def judge(fmt, pres, truth, full, N, step_ends, boundaries=None):
                 return ('steps-beyond-prefix',
                         'TFLAG exposes step %d (ends at byte %d) beyond the cut %d'
                         % (i, step_ends[i], N))
+    # the end-of-period flags are time flags too
+    ef = pres.get('etflag')
+    if ef is not None and full is not None and full.get('etflag') is not None:
+        fe = np.asarray(full['etflag'])
+        ef = np.asarray(ef)
+        n = ef.shape[0]
+        if n > fe.shape[0] or (n and (ef.shape[1:] != fe.shape[1:] or
+                                      not np.array_equal(ef, fe[:n]))):
+            return ('etflag', 'end time flags %s differ from the full file %s' % (
+                ef[:, 0].tolist() if ef.ndim == 3 else ef.tolist(),
+                (fe[:n][:, 0].tolist() if fe.ndim == 3 else fe[:n].tolist())))
     return None
 
 
@@ -651,6 +665,8 @@ def eval_full(st):
             out['ok'] = bad is None
             out['why'] = bad
             out['tflag'] = None if pres['tflag'] is None else np.asarray(pres['tflag']).tolist()
+            out['etflag'] = None if pres.get('etflag') is None else \
+                np.asarray(pres['etflag']).tolist()
         except BaseException as e:
             out = {'ok': False, 'why': ['raised', '%s: %s' % (type(e).__name__, e)]}
         try:
@@ -670,7 +686,9 @@ def eval_full(st):
         return {'ok': False, 'why': ['no-answer', 'complete file: reader did not return']}
     out = json.loads(buf.decode())
     tf = out.get('tflag')
-    out['pres'] = {'tflag': None if tf is None else np.array(tf)}
+    ef = out.get('etflag')
+    out['pres'] = {'tflag': None if tf is None else np.array(tf),
+                   'etflag': None if ef is None else np.array(ef)}
     return out
 
 
